@@ -160,7 +160,15 @@ func TestVerif_C16_ForeignMatrix(t *testing.T) {
 		case alg == "dir":
 			k := r.Bytes(refjose.ContentKeyLen(enc))
 			ok := append([]byte(nil), k...)
-			ok[r.Intn(len(ok))] ^= 1 << uint(r.Intn(8))
+			span := len(ok)
+			if strings.Contains(enc, "CBC") {
+				// RFC 7518 5.2: the key is MAC_KEY || ENC_KEY and the tag does not depend on ENC_KEY; a key that differs only in the
+				// ENC_KEY half passes the tag check and leaves valid-looking padding about once in 256 tries.  That is the algorithm,
+				// not the library (the first version of this part flipped any bit and raised that alarm on the unchanged tree,
+				// quick tier seed 9): the other key differs in the MAC half.
+				span /= 2
+			}
+			ok[r.Intn(span)] ^= 1 << uint(r.Intn(8))
 			encKey, decKey, otherKey, keyName = k, k, ok, "oct"
 		case strings.HasSuffix(alg, "KW") && alg[0] == 'A':
 			k := r.Bytes(map[string]int{"A128": 16, "A192": 24, "A256": 32}[alg[:4]])
